@@ -1,4 +1,6 @@
 #include "core.hpp"
+#include <execinfo.h>
+extern "C" void __sanitizer_symbolize_pc(void* pc, const char* fmt, char* out_buf, size_t out_buf_size);
 
 #include <algorithm>
 #include <cerrno>
@@ -223,12 +225,13 @@ extern "C" int simkit_fault_cb(const char* site)
 }
 
 // ================================================================ memory budget
-static bool g_mbOn = false, g_mbExceeded = false;
+static bool g_mbOn = false, g_mbExceeded = false, g_mbInherent = false;
 static size_t g_mbPerAlloc = 0, g_mbTotal = 0, g_mbUsed = 0, g_mbPeak = 0;
 void memBudgetStart(size_t perAlloc, size_t total)
 {
-  g_mbOn = true; g_mbExceeded = false; g_mbPerAlloc = perAlloc; g_mbTotal = total; g_mbUsed = 0; g_mbPeak = 0;
+  g_mbOn = true; g_mbExceeded = false; g_mbInherent = false; g_mbPerAlloc = perAlloc; g_mbTotal = total; g_mbUsed = 0; g_mbPeak = 0;
 }
+bool memBudgetInherent() { return g_mbInherent; }
 void memBudgetStop() { g_mbOn = false; }
 bool memBudgetExceeded() { return g_mbExceeded; }
 size_t memBudgetPeak() { return g_mbPeak; }
@@ -244,6 +247,26 @@ static void* sk_alloc(size_t n)
   {
     if (n > g_mbPerAlloc || g_mbUsed + n > g_mbTotal)
     {
+      // Memory that an object of that kind needs however it is built is not the loader trusting a count: the spectral
+      // correction of some covariance types works on a 2N^ndim array (1 GiB in 3-D) for API-built models as well.
+      // The request is refused all the same (the run must stay small) but it is not a budget verdict.
+      bool inherent = false;
+      {
+        // (the library is built with hidden visibility: frames are named by the sanitizer runtime's symbolizer)
+        void* bt[48];
+        int nb = backtrace(bt, 48);
+        bool was = g_mbOn;
+        g_mbOn = false; // the symbolizer allocates
+        for (int i = 0; i < nb && !inherent; i++)
+        {
+          char name[512];
+          name[0] = 0;
+          __sanitizer_symbolize_pc(bt[i], "%f", name, sizeof name);
+          if (strstr(name, "_evalCovFFT")) inherent = true;
+        }
+        g_mbOn = was;
+      }
+      if (inherent) { g_mbInherent = true; throw std::bad_alloc(); }
       g_mbExceeded = true;
       if (n > g_mbPeak) g_mbPeak = n;
       throw std::bad_alloc();
